@@ -262,7 +262,14 @@ func HarnessC15Handler() {
 		}
 		return nil, cerr
 	}, stackHandlerOptions()...)
-	client := NewClient[[]byte, []byte](&stackTransport{handler: handler}, stackURL, stackClientOptions(proto)...)
+	// a client with a small read limit: the limit is about messages, the
+	// error must still be conveyed (Connect unary carries it in the body,
+	// gRPC in trailers; gRPC-Web's trailer frame is itself subject to the limit)
+	var extra []ClientOption
+	if proto != 2 && nondetBool("clientReadLimit") {
+		extra = append(extra, WithReadMaxBytes(4))
+	}
+	client := NewClient[[]byte, []byte](&stackTransport{handler: handler}, stackURL, stackClientOptions(proto, extra...)...)
 	in := []byte{7}
 	_, err := client.CallUnary(context.Background(), NewRequest(&in))
 	check(err != nil && CodeOf(err) == want, "a handler returning its context's error conveys canceled / deadline_exceeded to the client")
